@@ -1,12 +1,17 @@
 PROP = dict(
     properties="Properties/C18.v",
     harness_mods=["Harness/C18.v"],
-    runs=[dict(cmd="c18", quick=120, thorough=4000)],
-    trusted_base=["hand-written Gallina model coq/Codec/Bigint.v of pkg/encoding/bigint (tied by correspondence)"],
-    assumptions=["ECDSA/scrypt/AES/RIPEMD-160/SHA-256 implementations are neither modelled nor verified"],
-    modelled="bigint codec modelled and proved; tied to Go by differential evaluation only",
+    runs=[dict(cmd="c18", quick=100, thorough=3000, timeout=1500)],
+    trusted_base=["hand-written Gallina models coq/Codec/{Bigint,Base58,Radix,Fixed,UintStr,Merkle,Multisig}.v (tied by correspondence)",
+                  "coq/Common/Sha256.v (executable SHA-256; compared with the Go double SHA-256 through every Merkle root and Base58Check checksum of the run)",
+                  "Base58 is modelled at specification level (radix conversion with leading zeros), not mr-tron/base58's limb arithmetic"],
+    assumptions=["ECDSA (P-256, RFC 6979), scrypt, AES, SHA-256 and RIPEMD-160 implementations are neither modelled nor verified: their laws are checked on generated keys and messages only",
+                 "the multi-signature theorems take verify : key -> signature -> bool as a total function: public keys are well-formed (with a malformed key the real checker is schedule-dependent: finding F42)",
+                 "goroutine scheduling is modelled as an arbitrary order of delivery of worker results to the main loop (channels are FIFO per sender; capacities are proved sufficient)"],
+    modelled="integer codec, Base58/Base58Check/address, fixed-point decimals, Uint160/256 forms, Merkle root (in-place and tree builders) and the two-ended parallel multi-signature checker are modelled and proved; "
+             "tied to Go by differential evaluation; elliptic-curve arithmetic, WIF, NEP-2 and script builders/parsers are checked directly against the implementation only",
 )
 META = dict(
-    text="Proved in Coq for all integers and byte strings: VM integer codec round-trip, two's-complement meaning of the decoder, minimality and canonical form, 256-bit range = 32 bytes. The Gallina model follows the mechanism of pkg/encoding/bigint and is tied to the Go code by differential evaluation on a boundary lattice. Partial: ECDSA/WIF/NEP-2 are not modelled.",
-    note="Trusted: Coq kernel and vm_compute, the Go harness, the orchestration script; the model is hand-written and tied to the code by correspondence only (not by translation). Elliptic-curve arithmetic, scrypt, AES, SHA-256/RIPEMD-160 implementations are neither modelled nor verified.",
+    text="(draft)",
+    note="(draft)",
 )
